@@ -7,6 +7,7 @@
 From Coq Require Import List ZArith Lia Bool.
 Import ListNotations.
 Require Import CV.Orient CV.Hpwl CV.HpwlProofs CV.HpwlFoldProofs CV.Optimiser CV.OptimiserProofs.
+Require Import CV.Moves CV.MovesProofs CV.ShiftLp CV.ShiftLpProofs.
 Local Open Scope Z_scope.
 
 (* [F] valueOnSwap / valueOnInsert: the value returned is the value at the candidate
@@ -63,9 +64,99 @@ Proof.
   - unfold ovalue. cbn [ox oy]. apply circuit_value_is_hpwl. exact Hb.
 Qed.
 
-(* [V] the shift pass (runShiftsOnCells: dual of a min-cost flow solved by lemon's network
-   simplex, not modelled): "value after <= value before" is checked on every driven pass and
-   on every exposed state, not proved. *)
+(* ---------- the shift pass (DetailedPlacer::runShiftsOnCells) ----------
+   The C++ builds a min-cost-flow network (ShiftLp.shift_net: positional arcs from the row structure, one pair
+   of arcs per pin of every net touching a selected cell, supplies +1/-1 at the U/L node of these nets), has
+   lemon's NetworkSimplex solve it, and writes  x[c] = potential(c) - potential(fixed).  The simplex is not
+   modelled; its answer (potentials + arc flows) is CERTIFIED: ShiftLp.shift_cert_ok checks dual feasibility
+   (all reduced costs cost + pi(src) - pi(tgt) >= 0), flow >= 0, flow conservation with the supplies,
+   complementary slackness (flow > 0 => reduced cost = 0) and that the net bounds lie on the right side of the
+   INT_MAX/INT_MIN sentinels of the wirelength model.  ./check C05 compares the network the C++ built with
+   shift_net on the same state (exact, as multisets of labelled arcs) and runs the extracted shift_cert_ok on
+   lemon's potentials and flows for every driven shift pass. *)
+
+(* [F] LP weak duality for ANY network: potentials pi that are complementary to a conserving flow f >= 0
+   minimise the supply-weighted potential sum (here: sum over the touched nets of U_net - L_net) among ALL
+   dual-feasible potentials pi' *)
+Theorem c05_shift_lp_weak_duality : forall arcs sup pi f pi',
+  flow_ok arcs pi f = true -> conserve arcs sup f = true -> dual_feasible arcs pi' = true ->
+  wobj sup pi <= wobj sup pi'.
+Proof. exact cert_weak_duality. Qed.
+
+(* [F] a certified answer is OPTIMAL: for every row structure d, x model xm, selected cells sel (cells of the
+   x model), potentials pi and flow f accepted by the certificate checker, the positions
+   potential(c) - potential(fixed) give an x wirelength (sum over ALL nets of the model, computed from scratch
+   after the write-back) that is <= the x wirelength of ANY assignment x' of positions to the selected cells
+   satisfying the ordering/boundary constraints (Moves.shift_ok, the guard of c02_shift_guard_sound) *)
+Theorem c05_shift_certificate_optimal : forall d xm sel pi f x',
+  Forall (fun c => (c < length (ipos xm))%nat) sel ->
+  shift_cert_ok (shift_net d xm sel) pi f = true ->
+  shift_ok d (assign sel x') = true ->
+  xvalue xm (positions_of sel pi) <= xvalue xm (assign sel x').
+Proof. exact shift_cert_optimal. Qed.
+
+(* [F] the write-back loop (xtopo_.updateCellPos for every selected cell) leaves the incremental model in a
+   state satisfying its invariant whose value IS that from-scratch x wirelength *)
+Theorem c05_shift_writeback_value : forall ups xm, IInv xm ->
+  IInv (write_updates xm ups) /\ inets (write_updates xm ups) = inets xm /\
+  ipos (write_updates xm ups) = write_pos (ipos xm) ups /\ ivalue (write_updates xm ups) = xvalue xm ups.
+Proof. exact write_updates_spec. Qed.
+
+(* [F] monotonicity clause of C05 for the shift pass, all states: when the row structure is legal (Inv) and
+   the x model holds the positions of its cells (consistent), the CURRENT positions satisfy the constraints,
+   so a certified shift pass does not increase the x value; the y model is not touched; the optimised value
+   does not increase; the rows stay legal and consistent with the x model *)
+Theorem c05_certified_shift_never_worsens : forall d s sel pi f,
+  OInv s -> Inv d -> consistent d (ox s) -> Forall (fun c => (c < length (ipos (ox s)))%nat) sel ->
+  shift_cert_ok (shift_net d (ox s) sel) pi f = true ->
+  let ups := positions_of sel pi in
+  let s' := oshift s ups in
+  OInv s' /\ same_nets s' s /\ ivalue (ox s') <= ivalue (ox s) /\ oy s' = oy s /\ ovalue s' <= ovalue s /\
+  Inv (apply_shift d ups) /\ consistent (apply_shift d ups) (ox s') /\
+  (forall x', shift_ok d (assign sel x') = true -> ivalue (ox s') <= xvalue (ox s) (assign sel x')).
+Proof. exact shift_cert_step. Qed.
+
+(* [F] along ANY history of best-move calls, reorderings AND certified shift passes (each run on a legal row
+   structure consistent with the x model of that moment) the optimised value never increases *)
+Theorem c05_history_with_certified_shifts_monotone : forall l s, OInv s -> chist_ok s l ->
+  OInv (csteps_run s l) /\ ovalue (csteps_run s l) <= ovalue s.
+Proof. exact certified_history_monotone. Qed.
+
+(* non-vacuity: one row [0,10], cells 0 (x 0, w 2) and 1 (x 5, w 2) joined by a net; both selected.  The
+   potentials (cell 1 -> 2, U -> 2, others 0) and one unit of flow along U -> cell 1 -> cell 0 -> L are accepted;
+   the shift moves cell 1 against cell 0 and the value drops from 5 to 2; a flow that breaks conservation and
+   potentials that overlap the cells are rejected *)
+Definition sh_rows : dstate :=
+  {| d_rows := [ {| dr_min := 0; dr_max := 10; dr_y := 0; dr_o := oN;
+                    dr_cells := [ {| p_id := 0; p_x := 0; p_w := 2; p_pol := pANY; p_o := oN |};
+                                  {| p_id := 1; p_x := 5; p_w := 2; p_pol := pANY; p_o := oN |} ] |} ];
+     d_loose := [] |}.
+Definition sh_state : ostate :=
+  {| ox := incr_build [0; 5; 0] [[(0%nat, 0); (1%nat, 0)]]; oy := incr_build [0; 0; 0] [[(0%nat, 0); (1%nat, 0)]] |}.
+Definition sh_pi (n : snode) : Z := match n with NCell 1 => 2 | NU _ => 2 | _ => 0 end.
+Definition sh_flow : list Z := [1; 0; 0; 1; 0; 0; 1].
+Example c05_shift_nonvacuous :
+  OInv sh_state /\ Inv sh_rows /\ consistent sh_rows (ox sh_state) /\
+  n_arcs (shift_net sh_rows (ox sh_state) [0%nat; 1%nat]) =
+    [(NCell 1, NCell 0, -2); (NCell 0, NFixed, 0); (NFixed, NCell 1, 8);
+     (NCell 0, NL 0, 0); (NU 0, NCell 0, 0); (NCell 1, NL 0, 0); (NU 0, NCell 1, 0)] /\
+  shift_cert_ok (shift_net sh_rows (ox sh_state) [0%nat; 1%nat]) sh_pi sh_flow = true /\
+  shift_cert_ok (shift_net sh_rows (ox sh_state) [0%nat; 1%nat]) sh_pi [1; 0; 0; 1; 0; 0; 0] = false /\
+  shift_cert_ok (shift_net sh_rows (ox sh_state) [0%nat; 1%nat]) (fun n => match n with NCell 1 => 1 | NU _ => 1 | _ => 0 end) sh_flow = false /\
+  positions_of [0%nat; 1%nat] sh_pi = [(0%nat, 0); (1%nat, 2)] /\
+  ovalue sh_state = 5 /\ ovalue (oshift sh_state (positions_of [0%nat; 1%nat] sh_pi)) = 2 /\
+  chist_ok sh_state [CS sh_rows [0%nat; 1%nat] sh_pi sh_flow].
+Proof.
+  split; [split; apply build_inv|]. split; [unfold Inv, sh_rows, row_ok; cbn; repeat constructor; cbn; lia|].
+  split; [intros r c [<-|[]] [<-|[<-|[]]]; reflexivity|].
+  split; [vm_compute; reflexivity|]. split; [vm_compute; reflexivity|]. split; [vm_compute; reflexivity|].
+  split; [vm_compute; reflexivity|]. split; [vm_compute; reflexivity|]. split; [vm_compute; reflexivity|].
+  split; [vm_compute; reflexivity|].
+  cbn [chist_ok cstep_ok]. split; [|exact I].
+  split; [unfold Inv, sh_rows, row_ok; cbn; repeat constructor; cbn; lia|].
+  split; [intros r c [<-|[]] [<-|[<-|[]]]; reflexivity|].
+  split; [repeat constructor|vm_compute; reflexivity].
+Qed.
 
 (* [R, known finding F8] the pin offsets of the optimised value are frozen at construction.  When a
    cell with a row polarity moves to a row of another orientation its real pin offsets change,
@@ -98,3 +189,8 @@ Print Assumptions c05_history_monotone.
 Print Assumptions c05_value_is_extent_sum.
 Print Assumptions c05_frozen_offsets_refuted.
 Print Assumptions c05_initial_value_is_hpwl.
+Print Assumptions c05_shift_lp_weak_duality.
+Print Assumptions c05_shift_certificate_optimal.
+Print Assumptions c05_shift_writeback_value.
+Print Assumptions c05_certified_shift_never_worsens.
+Print Assumptions c05_history_with_certified_shifts_monotone.
